@@ -551,6 +551,23 @@ def D37(tmp):
     return (r != 100 or not rebuilt), f"digest is valid UTF-8: recheck of intact content reports {r}, rebuilt={rebuilt}"
 
 
+def D38(tmp):
+    """a directory occupying a payload file's path in the destination: nothing may be written inside it"""
+    from torrentfile.rebuild import Assembler
+    f = os.path.join(tmp, "src", "single0.bin")
+    _mk(os.path.join(tmp, "src"), {"single0.bin": PL + 1})
+    mf = os.path.join(tmp, "m.torrent")
+    _create("TorrentFile", f, mf, piece_length=PL)
+    dest = os.path.join(tmp, "dest")
+    _mk(dest, {"single0.bin/zz_unrelated": b"u"})
+    try:
+        _quiet(lambda: Assembler([mf], [os.path.join(tmp, "src")], dest).assemble_torrents())
+    except Exception:  # noqa
+        pass
+    inside = sorted(os.listdir(os.path.join(dest, "single0.bin")))
+    return inside != ["zz_unrelated"], f"directory at the payload file's path now holds {inside}"
+
+
 # D27/D28: known findings of rebuild
 def D27(tmp):
     def scatter(d, src):
